@@ -97,11 +97,34 @@ fn port() -> impl Strategy<Value = u16> {
 }
 
 pub fn v4addr() -> impl Strategy<Value = SocketAddrV4> {
-    (any::<u32>(), port()).prop_map(|(ip, p)| SocketAddrV4::new(Ipv4Addr::from(ip), p))
+    let ip = prop_oneof![
+        6 => any::<u32>(),
+        1 => Just(0u32),
+        1 => Just(u32::MAX),
+        1 => Just(0x7f00_0001u32),
+        1 => (0u32..65536).prop_map(|x| 0x0a00_0000 | x),
+        1 => Just(0xe000_0001u32),
+    ];
+    (ip, port()).prop_map(|(ip, p)| SocketAddrV4::new(Ipv4Addr::from(ip), p))
 }
 
 pub fn v6addr() -> impl Strategy<Value = SocketAddrV6> {
-    (any::<u128>(), port()).prop_map(|(ip, p)| SocketAddrV6::new(Ipv6Addr::from(ip), p, 0, 0))
+    // random addresses plus the special ranges whose textual/“canonical” forms differ from the
+    // generic case: IPv4-mapped (::ffff:a.b.c.d), IPv4-compatible (::a.b.c.d), NAT64, loopback,
+    // unspecified, link-local, multicast, documentation, all-ones
+    let ip = prop_oneof![
+        6 => any::<u128>(),
+        2 => any::<u32>().prop_map(|v4| 0xffff_0000_0000u128 | v4 as u128),
+        1 => any::<u32>().prop_map(|v4| v4 as u128),
+        1 => any::<u32>().prop_map(|v4| (0x0064_ff9bu128 << 96) | v4 as u128),
+        1 => Just(1u128),
+        1 => Just(0u128),
+        1 => any::<u64>().prop_map(|x| (0xfe80u128 << 112) | x as u128),
+        1 => any::<u16>().prop_map(|x| (0xff02u128 << 112) | x as u128),
+        1 => any::<u64>().prop_map(|x| (0x2001_0db8u128 << 96) | x as u128),
+        1 => Just(u128::MAX),
+    ];
+    (ip, port()).prop_map(|(ip, p)| SocketAddrV6::new(Ipv6Addr::from(ip), p, 0, 0))
 }
 
 fn anyaddr() -> impl Strategy<Value = SocketAddr> {
@@ -466,12 +489,68 @@ pub fn show(b: &[u8]) -> String {
 pub fn spec() -> PropertySpec {
     PropertySpec {
         id: "C13",
-        stages: vec![Box::new(Codec)],
+        stages: vec![Box::new(Codec), Box::new(Bytes)],
         assumptions: vec![
             "Canonical form is produced by the harness's own codec (bcodec: sorted keys, compact 6/18-byte peers, 26/38-byte nodes, big-endian ports, implied_port=1 with port=0, empty lists omitted); bcodec is self-checked against BEP5's examples at start-up.".into(),
             "Unknown keys are textual (UTF-8) names outside the BEP5/32 key set, as in the property's examples.".into(),
             "Method/argument mismatch is asserted only when the arguments lack a key the named method requires.".into(),
         ],
         explanation: "Oracles: decode(canon) equals the model; decode(canon).encode() equals canon byte for byte; decode(variant) == decode(canon); negative classes are rejected. The libFuzzer roundtrip target adds byte-level search (see fuzz stage in coverage.stages when run).".into(),
+    }
+}
+
+// ---------------------------------------------------------------------------------------------
+// Byte-level round trip: any byte string the decoder accepts re-encodes canonically
+
+/// Semantic oracle on raw bytes (shared with the libFuzzer `roundtrip` target).
+/// Err((kind, detail)) on a violation.
+pub fn check_bytes(data: &[u8]) -> Result<bool, (String, String)> {
+    let m = match Message::decode(data) {
+        Ok(m) => m,
+        Err(_) => return Ok(false),
+    };
+    let k = msg_to_k(&m);
+    let enc = match m.encode() {
+        Ok(e) => e,
+        Err(e) => return Err(("accepted-message-does-not-encode".into(), format!("{e}: {} decoded to {k:?}", show(data)))),
+    };
+    let canon = k.encode();
+    if enc != canon {
+        return Err(("encode-not-canonical".into(), format!("accepted input {} re-encodes to {} but the canonical encoding of the decoded message is {}", show(data), show(&enc), show(&canon))));
+    }
+    match Message::decode(&enc) {
+        Ok(m2) if m2 == m => {}
+        Ok(m2) => return Err(("re-decode-differs".into(), format!("{} -> {:?} -> re-encoded -> {:?}", show(data), k, msg_to_k(&m2)))),
+        Err(e) => return Err(("re-encoding-rejected".into(), format!("{e}: {}", show(&enc)))),
+    }
+    Ok(true)
+}
+
+pub struct Bytes;
+
+impl Stage for Bytes {
+    type Case = super::c14::Input;
+    fn name(&self) -> &'static str {
+        "bytes-roundtrip"
+    }
+    fn cases(&self, tier: Tier) -> u32 {
+        tier.pick(40_000, 1_000_000)
+    }
+    fn strategy(&self, _t: Tier) -> BoxedStrategy<Self::Case> {
+        super::c14::input().boxed()
+    }
+    fn run(&self, c: &Self::Case) -> Outcome {
+        let bytes = super::c14::build(c);
+        match check_bytes(&bytes) {
+            Ok(accepted) => Outcome::pass(accepted && !c.muts.is_empty()).label(if accepted { "accepted" } else { "rejected" }),
+            Err((k, d)) => Outcome::violation(k, d),
+        }
+    }
+    fn rule(&self) -> String {
+        "byte strings from the C14 mutation generator (valid messages with 0..8 structure-aware mutations); oracle: whatever the decoder accepts re-encodes to the canonical encoding (independent codec) of the decoded message, and decodes again to the same message. Non-trivial: mutated and still accepted".into()
+    }
+    fn sample(&self, c: &Self::Case) -> serde_json::Value {
+        let b = super::c14::build(c);
+        serde_json::json!({"len": b.len(), "bytes": show(&b[..b.len().min(160)])})
     }
 }
